@@ -51,12 +51,20 @@ fn gen_stream(rng: &mut Rng, class: usize) -> Stream {
     match class % 6 {
         0 | 1 => {
             let len = rng.range(1, 6);
-            let reqs = random_seq(rng, ALL_KINDS, len, "s", 10);
+            // half of the streams carry blanks inside their string values (a cut may fall
+            // directly behind one)
+            let prefix = *rng.pick(&["s", "s a  b "]);
+            let reqs = random_seq(rng, ALL_KINDS, len, prefix, 10);
             // optionally end with an incomplete message
             let mut bytes = seq_bytes(&reqs);
             let mut desc = format!("{:?}", reqs.iter().map(|r| r.describe()).collect::<Vec<_>>());
             if rng.chance(1, 4) {
-                let extra = Req::new(Kind::Echo, Flags { more: false, oneway: false }, "partial").to_bytes();
+                let extra = if rng.chance(1, 2) {
+                    Req::new(Kind::Echo, Flags { more: false, oneway: false }, "partial").to_bytes()
+                } else {
+                    // layout between the tokens and blanks inside the value
+                    b"{ \"method\" : \"org.verif.t.Echo\",\r\n\t\"parameters\" : { \"token\" : \"par tial  x \" } }\0".to_vec()
+                };
                 let k = rng.range(1, extra.len() - 1);
                 bytes.extend_from_slice(&extra[..k]);
                 desc.push_str(&format!("+partial[{}]", k));
